@@ -207,6 +207,10 @@ def emit_g4(g):
         if not r["fragment"]:
             rules.append((r["name"], nm, r["skip"]))
     out.append("")
+    out.append("/-- every lexer rule, fragments included, in grammar order (= rule index in the lexer ATN) -/")
+    out.append("def lexAllRules : List (String × Re) :=\n  [%s]" % ",\n   ".join(
+        "(%s, %s)" % (lean_str(r["name"]), frags[r["name"]]) for r in lex))
+    out.append("")
     out.append("/-- non-fragment lexer rules in grammar order: name, regular expression, `-> skip` -/")
     out.append("def lexRules : List (String × Re × Bool) :=\n  [%s]" % ",\n   ".join(
         "(%s, %s, %s)" % (lean_str(n), nm, "true" if sk else "false") for n, nm, sk in rules))
@@ -316,7 +320,43 @@ def regenerate(log=print):
         c2 = False
     if c1 or c2:
         log("translate: regenerated %s" % ", ".join(n for n, c in (("Gen/G4.lean", c1), ("Gen/Artefacts.lean", c2)) if c))
+    problems += regenerate_certificates(log)
     return problems
+
+
+def regenerate_certificates(log=print):
+    """Gen/ATNCert.lean: the decoded lexer ATN, the sub-automaton of every lexer rule and a bisimulation
+    certificate per rule, produced by the (untrusted) Lean program Tools/MkATNCert.lean from
+    Gen/Artefacts.lean and Gen/G4.lean; GenProps/C14ATN.lean re-checks all of it in the kernel."""
+    import hashlib
+    import subprocess
+    lean_dir = os.path.dirname(GEN)
+    try:
+        h = hashlib.sha256()
+        for fn in ("G4.lean", "Artefacts.lean"):
+            h.update(open(os.path.join(GEN, fn), "rb").read())
+        for fn in (os.path.join(lean_dir, "Tools", "MkATNCert.lean"), os.path.join(lean_dir, "Blackbird", "ATNSem.lean"),
+                   os.path.join(lean_dir, "Blackbird", "ATN.lean")):
+            h.update(open(fn, "rb").read())
+        stamp = "-- inputs sha256: " + h.hexdigest()
+        target = os.path.join(GEN, "ATNCert.lean")
+        if os.path.exists(target) and stamp in open(target, encoding="utf-8").read(300):
+            return []
+        b = subprocess.run(["lake", "build", "Gen.G4", "Gen.Artefacts", "Blackbird.ATNSem"], cwd=lean_dir,
+                           stdout=subprocess.PIPE, stderr=subprocess.STDOUT, timeout=1800)
+        if b.returncode != 0:
+            return ["cannot build the inputs of the certificate generator: " + b.stdout.decode("utf-8", "replace")[-800:]]
+        g = subprocess.run(["lake", "env", "lean", "--run", os.path.join("Tools", "MkATNCert.lean")], cwd=lean_dir,
+                           stdout=subprocess.PIPE, stderr=subprocess.PIPE, timeout=1800)
+        if g.returncode != 0:
+            return ["the certificate generator fails (the lexer ATN does not decode, or a rule is missing): " +
+                    g.stderr.decode("utf-8", "replace")[-800:]]
+        text = stamp + "\n" + g.stdout.decode("utf-8")
+        if write_if_changed(target, text):
+            log("translate: regenerated Gen/ATNCert.lean")
+        return []
+    except Exception as e:  # noqa: BLE001
+        return ["cannot regenerate the ATN certificates: %r" % (e,)]
 
 
 if __name__ == "__main__":
